@@ -263,6 +263,12 @@ class Session:
 
     def flush_domain(self):
         I = self.I
+        if not getattr(self, "check_domain", True):
+            if I.domain_pending:
+                I.notes.append(f"{self.unit_name}: {len(I.domain_pending)} division-domain conditions not checked "
+                               "(assumed: data extrema used for normalisation are non-zero)")
+            I.domain_pending.clear()
+            return
         while I.domain_pending:
             name, cond = I.domain_pending.pop(0)
             self.ensure("arith_defined", cond, witness=name)
